@@ -3,6 +3,7 @@ package c20
 import (
 	"fmt"
 	"sort"
+	"strings"
 )
 
 // ---------------------------------------------------------------------------
@@ -16,7 +17,24 @@ import (
 
 type rnode struct {
 	pass    bool
-	in, out int
+	in, out int // the node's own types (a passthrough: tNone until inferred, then in == out)
+	// WithInputKey / WithOutputKey: towards its neighbours that side of the node is a map[string]any,
+	// whatever the node's own type is
+	inKey, outKey bool
+}
+
+// a data connection that cannot be judged yet: both ends untyped passthrough nodes, or a connection
+// with a field mapping that has an untyped end (a mapping transports a part of the value: it tells
+// nothing about the type of a passthrough node at either end)
+type rpending struct {
+	from, to     string
+	fromF, field string
+}
+
+type rchild struct {
+	key string
+	sub *Sub
+	ref reference
 }
 
 type rbranch struct {
@@ -33,8 +51,9 @@ type refGraph struct {
 	nodes    map[string]*rnode
 	ctrl     map[[2]string]bool
 	data     map[[2]string]bool
-	pending  [][2]string // data edges between two still untyped passthrough nodes
+	pending  []rpending
 	branches []rbranch
+	children []*rchild // graphs added as nodes, in the order of their keys at Compile
 	startSet bool
 	endSet   bool
 
@@ -58,6 +77,9 @@ func (g *refGraph) outType(n string) int {
 	case "end":
 		return g.outT
 	}
+	if g.nodes[n].outKey {
+		return tMap
+	}
 	return g.nodes[n].out
 }
 
@@ -67,6 +89,9 @@ func (g *refGraph) inType(n string) int {
 		return g.inT
 	case "end":
 		return g.outT
+	}
+	if g.nodes[n].inKey {
+		return tMap
 	}
 	return g.nodes[n].in
 }
@@ -119,71 +144,89 @@ func (g *refGraph) addNode(key string, pass bool, in, out int, h hSpec) string {
 			return g.fail("handler-value-type")
 		}
 	}
-	g.nodes[key] = &rnode{pass: pass, in: in, out: out}
+	g.nodes[key] = &rnode{pass: pass, in: in, out: out, inKey: h.inKey, outKey: h.outKey}
 	return ""
+}
+
+// addChild: a graph added as a node. Adding it never looks into it; it is compiled, with the options
+// given to the node, by every Compile of this graph.
+func (g *refGraph) addChild(key string, sub *Sub, h hSpec) string {
+	if rule := g.addNode(key, false, tStr, tStr, h); rule != "" {
+		return rule
+	}
+	c := &rchild{key: key, sub: sub, ref: newReference(sub.FE, false)}
+	for _, op := range sub.Ops {
+		c.ref.predict(op)
+	}
+	g.children = append(g.children, c)
+	sort.Slice(g.children, func(i, j int) bool { return g.children[i].key < g.children[j].key })
+	return ""
+}
+
+// fieldType: the type found at field f of type t ("" = t itself); ok=false: t has no such field.
+func fieldType(t int, f string) (int, bool) {
+	if f == "" {
+		return t, true
+	}
+	switch t {
+	case tIn:
+		if f == "X" || f == "Y" {
+			return tStr, true
+		}
+	case tMap:
+		return tAny, true
+	}
+	return tNone, false
+}
+
+// mappingFits: may a value taken at fromF of type o be assigned to field of type i.
+func mappingFits(o, i int, fromF, field string) bool {
+	src, ok := fieldType(o, fromF)
+	if !ok {
+		return false
+	}
+	dst, ok := fieldType(i, field)
+	if !ok {
+		return false
+	}
+	// an `any` taken out of a map may hold the right type (checked at request time)
+	return src == dst || dst == tAny || src == tAny
 }
 
 // resolve validates / infers the types along one data connection.
-func (g *refGraph) resolve(from, to, field string) string {
-	o, i := g.outType(from), g.inType(to)
-	switch {
-	case o == tNone && i == tNone:
-		g.pending = append(g.pending, [2]string{from, to})
-		return ""
-	case o != tNone && i == tNone:
-		n := g.nodes[to]
-		n.in, n.out = o, o
-		return g.propagate()
-	case o == tNone && i != tNone:
-		n := g.nodes[from]
-		n.in, n.out = i, i
-		return g.propagate()
-	}
-	if field != "" {
-		// ToField(field): whole predecessor output into one field of the successor
-		switch i {
-		case tIn:
-			if field != "X" && field != "Y" {
-				return "type-mismatch"
-			}
-			if o != tStr {
-				return "type-mismatch"
-			}
-		case tMap:
-		default:
-			return "type-mismatch"
-		}
-		return ""
-	}
-	if !assignable(o, i) {
-		return "type-mismatch"
-	}
-	return ""
+func (g *refGraph) resolve(from, to, fromF, field string) string {
+	g.pending = append(g.pending, rpending{from, to, fromF, field})
+	return g.propagate()
 }
 
-// propagate pushes freshly inferred passthrough types along the parked edges.
+// propagate judges the parked connections as far as the types are known, and pushes freshly inferred
+// passthrough types along them, whatever the order in which the connections were made.
 func (g *refGraph) propagate() string {
 	for changed := true; changed; {
 		changed = false
 		rest := g.pending[:0:0]
 		for _, e := range g.pending {
-			o, i := g.outType(e[0]), g.inType(e[1])
+			o, i := g.outType(e.from), g.inType(e.to)
+			mapped := e.fromF != "" || e.field != ""
 			switch {
-			case o == tNone && i == tNone:
+			case o == tNone && i == tNone, mapped && (o == tNone || i == tNone):
 				rest = append(rest, e)
-			case o != tNone && i == tNone:
-				n := g.nodes[e[1]]
+			case i == tNone:
+				n := g.nodes[e.to]
 				n.in, n.out = o, o
 				changed = true
-			case o == tNone && i != tNone:
-				n := g.nodes[e[0]]
+			case o == tNone:
+				n := g.nodes[e.from]
 				n.in, n.out = i, i
 				changed = true
+			case mapped:
+				if !mappingFits(o, i, e.fromF, e.field) {
+					return "type-mismatch"
+				}
 			default:
 				if !assignable(o, i) {
 					return "type-mismatch"
 				}
-				changed = true
 			}
 		}
 		g.pending = rest
@@ -191,7 +234,7 @@ func (g *refGraph) propagate() string {
 	return ""
 }
 
-func (g *refGraph) addEdge(from, to string, noControl, noData bool, field string) string {
+func (g *refGraph) addEdge(from, to string, noControl, noData bool, fromF, field string) string {
 	if r := g.gate(); r != "" {
 		return r
 	}
@@ -224,7 +267,7 @@ func (g *refGraph) addEdge(from, to string, noControl, noData bool, field string
 		if g.data[e] {
 			return g.fail("duplicate-edge")
 		}
-		if r := g.resolve(from, to, field); r != "" {
+		if r := g.resolve(from, to, fromF, field); r != "" {
 			return g.fail(r)
 		}
 		g.data[e] = true
@@ -253,7 +296,7 @@ func (g *refGraph) addBranch(from string, cond int, ends []string, skipData bool
 			if r := g.propagate(); r != "" {
 				return g.fail(r)
 			}
-		} else if !assignable(n.out, cond) {
+		} else if !assignable(n.out, cond) && !n.outKey {
 			// the passthrough already carries another type (inferred from its neighbours)
 			return g.fail("branch-condition-type-vs-inferred-passthrough")
 		}
@@ -268,7 +311,7 @@ func (g *refGraph) addBranch(from string, cond int, ends []string, skipData bool
 			}
 		}
 		for _, e := range sortedCopy(ends) {
-			if r := g.resolve(from, e, ""); r != "" {
+			if r := g.resolve(from, e, "", ""); r != "" {
 				return g.fail(r)
 			}
 			if from == "start" {
@@ -288,27 +331,33 @@ type kOpt struct {
 	max  bool
 }
 
+// parseK: "+"-separated option names; name and store have no influence on well-formedness.
 func parseK(opt string) kOpt {
-	switch opt {
-	case "all":
-		return kOpt{mode: "all"}
-	case "any":
-		return kOpt{mode: "any"}
-	case "max":
-		return kOpt{max: true}
-	case "all+max":
-		return kOpt{mode: "all", max: true}
-	case "any+max":
-		return kOpt{mode: "any", max: true}
+	var k kOpt
+	for _, o := range strings.Split(opt, "+") {
+		switch o {
+		case "all", "any":
+			k.mode = o // the last trigger-mode option wins
+		case "max":
+			k.max = true
+		}
 	}
-	return kOpt{} // "", name, store: no influence on well-formedness
+	return k
 }
 
-func (g *refGraph) hasCycle() bool {
-	succ := map[string][]string{}
+// cycleKind: "" if the graph is acyclic, otherwise which kinds of connections are needed to close a
+// loop. Every kind of connection makes its target wait for its source in all-predecessor mode:
+//
+//	edge        a connection that carries control (Graph.AddEdge, Workflow AddInput)
+//	dependency  Workflow AddDependency (control only) - for the cycle check the same as an edge
+//	branch      a branch target
+//	data-only   Workflow AddInputWithOptions(WithNoDirectDependency()): the target waits for the value
+func (g *refGraph) cycleKind() string {
+	type conn struct{ from, to string }
+	var edges, branches, dataOnly []conn
 	for e := range g.ctrl {
 		if e[0] != "start" && e[1] != "end" {
-			succ[e[0]] = append(succ[e[0]], e[1])
+			edges = append(edges, conn{e[0], e[1]})
 		}
 	}
 	for _, b := range g.branches {
@@ -316,37 +365,56 @@ func (g *refGraph) hasCycle() bool {
 			continue
 		}
 		for _, e := range b.ends {
-			if e != "end" {
-				succ[b.from] = append(succ[b.from], e)
+			if e != "end" && g.known(e) {
+				branches = append(branches, conn{b.from, e})
 			}
 		}
 	}
-	color := map[string]int{}
-	var visit func(n string) bool
-	visit = func(n string) bool {
-		color[n] = 1
-		for _, s := range succ[n] {
-			if color[s] == 1 {
-				return true
+	for e := range g.data {
+		if e[0] != "start" && e[1] != "end" && !g.ctrl[e] {
+			dataOnly = append(dataOnly, conn{e[0], e[1]})
+		}
+	}
+	cyclic := func(sets ...[]conn) bool {
+		succ := map[string][]string{}
+		for _, set := range sets {
+			for _, c := range set {
+				succ[c.from] = append(succ[c.from], c.to)
 			}
-			if color[s] == 0 && visit(s) {
+		}
+		color := map[string]int{}
+		var visit func(n string) bool
+		visit = func(n string) bool {
+			color[n] = 1
+			for _, s := range succ[n] {
+				if color[s] == 1 {
+					return true
+				}
+				if color[s] == 0 && visit(s) {
+					return true
+				}
+			}
+			color[n] = 2
+			return false
+		}
+		for k := range g.nodes {
+			if color[k] == 0 && visit(k) {
 				return true
 			}
 		}
-		color[n] = 2
 		return false
 	}
-	keys := make([]string, 0, len(g.nodes))
-	for k := range g.nodes {
-		keys = append(keys, k)
+	switch {
+	case cyclic(edges):
+		return "cycle-in-all-predecessor-mode"
+	case cyclic(edges, branches):
+		return "cycle-in-all-predecessor-mode/closed-by-branch"
+	case cyclic(edges, dataOnly):
+		return "cycle-in-all-predecessor-mode/closed-by-data-only-input"
+	case cyclic(edges, branches, dataOnly):
+		return "cycle-in-all-predecessor-mode/closed-by-branch-and-data-only-input"
 	}
-	sort.Strings(keys)
-	for _, k := range keys {
-		if color[k] == 0 && visit(k) {
-			return true
-		}
-	}
-	return false
+	return ""
 }
 
 // compile: errors of Compile describe an incomplete graph or a bad option set;
@@ -369,13 +437,26 @@ func (g *refGraph) compile(opt string) string {
 		return "uninferred-passthrough"
 	}
 	for _, n := range g.nodes {
-		if n.pass && n.out == tNone {
+		if n.pass && ((n.in == tNone && !n.inKey) || (n.out == tNone && !n.outKey)) {
 			return "uninferred-passthrough"
 		}
 	}
+	// graphs added as nodes are compiled with the options given to their node; all of them are looked at
+	// (which of several ill-formed ones is met first depends on the implementation's order)
+	childRule := ""
+	for _, c := range g.children {
+		if _, rule := c.ref.predict(Op{K: "K", Opt: c.sub.Opt}); rule != "" && childRule == "" {
+			childRule = "nested-" + c.sub.FE + "/" + rule
+		}
+	}
+	if childRule != "" {
+		return childRule
+	}
 	dag := k.mode == "all" || g.fe == "workflow"
-	if dag && g.hasCycle() {
-		return "cycle-in-all-predecessor-mode"
+	if dag {
+		if kind := g.cycleKind(); kind != "" {
+			return kind
+		}
 	}
 	if dag && k.max {
 		return "max-steps-in-all-predecessor-mode"
@@ -414,8 +495,10 @@ func (r *refG) predict(op Op) (bool, string) {
 		return false, r.g.addNode(op.Key, false, in, out, parseH(op.H))
 	case "P":
 		return false, r.g.addNode(op.Key, true, tNone, tNone, parseH(op.H))
+	case "GN":
+		return false, r.g.addChild(op.Key, op.Sub, parseH(op.H))
 	case "E":
-		return false, r.g.addEdge(op.From, op.To, false, false, "")
+		return false, r.g.addEdge(op.From, op.To, false, false, "", "")
 	case "B":
 		return false, r.g.addBranch(op.From, condType(op.Cond), op.Ends, false)
 	case "K":
@@ -461,7 +544,7 @@ func (r *refChain) startOfGroup() (string, bool) {
 
 func (r *refChain) predict(op Op) (bool, string) {
 	switch op.K {
-	case "CL", "CP":
+	case "CL", "CP", "CG":
 		if r.err {
 			return true, ""
 		}
@@ -478,14 +561,18 @@ func (r *refChain) predict(op Op) (bool, string) {
 		if pass {
 			in, out = tNone, tNone
 		}
-		if rule := r.g.addNode(key, pass, in, out, h); rule != "" {
+		if op.K == "CG" {
+			if rule := r.g.addChild(key, op.Sub, h); rule != "" {
+				return r.broken(rule)
+			}
+		} else if rule := r.g.addNode(key, pass, in, out, h); rule != "" {
 			return r.broken(rule)
 		}
 		if len(r.pre) == 0 {
 			r.pre = []string{"start"}
 		}
 		for _, p := range r.pre {
-			if rule := r.g.addEdge(p, key, false, false, ""); rule != "" {
+			if rule := r.g.addEdge(p, key, false, false, "", ""); rule != "" {
 				return r.broken(rule)
 			}
 		}
@@ -510,7 +597,7 @@ func (r *refChain) predict(op Op) (bool, string) {
 			if rule := r.g.addNode(key, false, tStr, tMap, hSpec{}); rule != "" {
 				return r.broken(rule)
 			}
-			if rule := r.g.addEdge(start, key, false, false, ""); rule != "" {
+			if rule := r.g.addEdge(start, key, false, false, "", ""); rule != "" {
 				return r.broken(rule)
 			}
 			keys = append(keys, key)
@@ -557,7 +644,7 @@ func (r *refChain) predict(op Op) (bool, string) {
 					return false, "chain-without-nodes"
 				}
 				for _, p := range r.pre {
-					if rule := r.g.addEdge(p, "end", false, false, ""); rule != "" {
+					if rule := r.g.addEdge(p, "end", false, false, "", ""); rule != "" {
 						return false, rule
 					}
 				}
@@ -614,7 +701,11 @@ func (r *refWF) predict(op Op) (bool, string) {
 			if op.Typ == "P" {
 				in, out = tNone, tNone
 			}
-			_ = r.g.addNode(op.Key, op.Typ == "P", in, out, parseH(op.H))
+			if op.Typ == "G" {
+				_ = r.g.addChild(op.Key, op.Sub, parseH(op.H))
+			} else {
+				_ = r.g.addNode(op.Key, op.Typ == "P", in, out, parseH(op.H))
+			}
 			h = &refWFNode{key: op.Key, fields: map[string]bool{}}
 			r.handles[op.Key] = h
 		}
@@ -656,9 +747,11 @@ func (r *refWF) predict(op Op) (bool, string) {
 						return false, "input-declaration-conflict"
 					}
 					if in.Field == "" {
-						if !h.any {
-							h.whole = true
+						// the whole input (also FromField): conflicts with anything declared before
+						if h.any {
+							return false, "input-declaration-conflict"
 						}
+						h.whole = true
 					} else {
 						if h.fields[in.Field] {
 							return false, "input-declaration-conflict"
@@ -667,7 +760,7 @@ func (r *refWF) predict(op Op) (bool, string) {
 					}
 					h.any = true
 				}
-				if rule := r.g.addEdge(in.From, k, in.Mode == "nd", in.Mode == "dep", in.Field); rule != "" {
+				if rule := r.g.addEdge(in.From, k, in.Mode == "nd", in.Mode == "dep", in.FromF, in.Field); rule != "" {
 					return false, rule
 				}
 			}
